@@ -131,7 +131,7 @@ class FakeProcess:
         except SystemExit as e:
             self.exitcode = e.code if isinstance(e.code, int) else 1
         except BaseException as e:  # uncaught in the child: the process ends with a non-zero status
-            self.exitcode = 1
+            self.exitcode = -9 if type(e).__name__ == "WorkerKilled9" else 1
             self.ctx.child_errors.append((name, repr(e)))
             e.__traceback__ = None
             del e
